@@ -95,14 +95,21 @@ Definition tr_call (meth : string) (lt : bool) : option (call unit unit) :=
   else if String.eqb meth "SX" then Some (C1 KSX i 0%N)
   else if String.eqb meth "relaxation" then Some (CRelax i tt 0%N)
   else if String.eqb meth "bitflip" then Some (CBitflip i 0%N)
+  else if String.eqb meth "Rz" then Some (CRz i tt)
   else None.
-Definition own_trace (meth : string) (lt : bool) : option (string * list Z * list Z) :=
+Definition tr_steps (meth : string) (lt : bool) : option (res (bstate (gcall Z) * unit)) :=
   match tr_call meth lt with
   | None => None
   | Some c =>
-      let i := if lt then 0%Z else 1%Z in
       let phi := if lt then [(100, 0); (101, 0)]%Z else [(101, 0); (100, 0)]%Z in
-      match own_steps unit unit Z tr_val (fun _ => (0, 0)%Z) (gcall Z) (GRelax []) (fun g => g) (mkB (gcall Z) 2 None phi []) [c] with
+      Some (own_steps unit unit Z tr_val (fun _ => (1000, 0)%Z) (gcall Z) (GRelax []) (fun g => g) (mkB (gcall Z) 2 None phi []) [c])
+  end.
+Definition own_trace (meth : string) (lt : bool) : option (string * list Z * list Z) :=
+  match tr_steps meth lt with
+  | None => None
+  | Some r =>
+      let i := if lt then 0%Z else 1%Z in
+      match r with
       | Ok (s, _) =>
           match b_items (gcall Z) s with
           | [(g, place)] =>
@@ -111,4 +118,10 @@ Definition own_trace (meth : string) (lt : bool) : option (string * list Z * lis
           end
       | Err _ => None
       end
+  end.
+(* the virtual phases [phi[i]; phi[k]] after the call, as (marker + angle marker 1000 per rz, quarter turns) *)
+Definition own_trace_phi (meth : string) (lt : bool) : option (list (Z * Z)) :=
+  match tr_steps meth lt with
+  | Some (Ok (s, _)) => Some (if lt then b_phi (gcall Z) s else rev (b_phi (gcall Z) s))
+  | _ => None
   end.
